@@ -195,7 +195,10 @@ def run(ctx):
                 ("monitor", 0, [["mlock", "mwaite", "munlock"], ["mlock", "mwaite", "munlock"], ["mlock", "mwaite", "munlock"], ["msetafter1", "msetafter2", "msetafter3"]]),
                 ("monitor", 0, [["mlock", "mwaite", "munlock"], ["mlock", "mwaite", "munlock"], ["msetafter1"], ["msetafter2"]]),
                 ("thread", 0, [["mstart", "restart", "join"], ["start", "restart", "join"]]),
-                ("thread", 0, [["mstart", "restart", "restart", "join"]])]
+                ("thread", 0, [["mstart", "restart", "restart", "join"]]),
+                # a start() whose thread creation fails (the scheduler's pthread model refuses it once), then a successful one
+                ("thread", 0, [["startf", "startagain", "join"], ["start", "join"]]),
+                ("thread", 0, [["startf", "startagain", "restart", "join"]])]
     runs = []
     for j, (prim, init, progs) in enumerate(DIRECTED):
         for i in range(12 if ctx.quick else 150):
